@@ -87,4 +87,45 @@ def run (w : World) (toks : List String) : World × String :=
   | ["pflags"] => (w, showList (fun P => showBool P.reqGrad ++ showBool P.hasGrad) w.pars)
   | _ => (w, "bad-op")
 
+def showColl (c : Coll) : String :=
+  (if c.isDict then "dict " else "list ") ++ showList (fun e => if c.isDict then s!"{e.1}:{e.2}" else toString e.2) c.items
+
+/-- the module commands plus the caller-owned collections (`Sequential(d)` with a dict / list that lives on in the caller's hands) -/
+def runC (cw : CWorld) (toks : List String) : CWorld × String :=
+  let onColl (i : String) (f : Coll → Coll) : CWorld × String :=
+    match parseNat? i with
+    | some i => if i < cw.colls.length then (updColl cw i f, "ok") else (cw, "bad-op")
+    | none => (cw, "bad-op")
+  match toks with
+  | ["cdict", ks] =>
+    match parseList? parseNamed? ks with
+    | some ks => let (cw, i) := newColl cw ⟨true, ks⟩; (cw, s!"c{i}")
+    | none => (cw, "bad-op")
+  | ["clist", ks] =>
+    match parseNatList? ks with
+    | some ks => let (cw, i) := newColl cw ⟨false, ks.map (fun k => ("", k))⟩; (cw, s!"c{i}")
+    | none => (cw, "bad-op")
+  | ["seqc", i] =>
+    match parseNat? i with
+    | some i => match seqFrom cw i with
+      | (cw, some m) => (cw, s!"m{m}")
+      | (cw, none) => (cw, "bad-op")
+    | none => (cw, "bad-op")
+  | ["cput", i, name, k] =>
+    match parseNat? k with
+    | some k => onColl i (·.put name k)
+    | none => (cw, "bad-op")
+  | ["cdel", i, name] => onColl i (·.del name)
+  | ["cmove", i, name, last] =>
+    match parseBool? last with
+    | some last => onColl i (·.move name last)
+    | none => (cw, "bad-op")
+  | ["cclear", i] => onColl i Coll.clear
+  | ["crev", i] => onColl i Coll.rev
+  | ["cshow", i] =>
+    match parseNat? i with
+    | some i => (cw, (cw.colls[i]?.map showColl).getD "bad-op")
+    | none => (cw, "bad-op")
+  | _ => let (w, o) := run cw.w toks; ({ cw with w := w }, o)
+
 end Synap.Drv.Modules
